@@ -1,5 +1,5 @@
 SPECIFICATION Spec
-CONSTANT MaxBreaches = 2
+CONSTANT MaxBreaches = 3
 INVARIANTS Sound SoftNeverError Complete
 ACTION_CONSTRAINT Emit
 CHECK_DEADLOCK FALSE
